@@ -4,79 +4,129 @@ import (
 	"fmt"
 	"os"
 	"path/filepath"
-	"sync"
-
-	"github.com/caddyserver/caddy/v2"
-	"github.com/caddyserver/certmagic"
+	"syscall"
 
 	// every standard module: the adapter's directive parsers and what caddy.Validate provisions
 	_ "github.com/caddyserver/caddy/v2/modules/standard"
 )
 
-// Process environment of the adapter cases (DESIGN §4 C16): adaptation runs in an EMPTY
-// private working directory (otherwise `import *` lexes whatever happens to be in cwd),
-// with private XDG dirs / HOME / default storage so that provisioning for the validity
-// clause cannot touch anything outside /verif/.run. Caddy's own logging goes to /dev/null.
+// Process environment of the adapter cases (DESIGN §4 C16): adaptation must run in an EMPTY
+// working directory (otherwise `import *` lexes whatever happens to be there) with private
+// XDG dirs / HOME, so that provisioning for the validity clause cannot touch anything
+// outside /verif/.run. Caddy captures both the working directory (caddy.FastAbs) and the
+// data directory (caddy.DefaultStorage) during package initialisation, so changing them
+// later is not enough: the harness re-executes itself once, from the private directory and
+// with the private environment, before anything else happens.
 
-var (
-	envOnce   sync.Once
-	privRoot  string
-	origErr   *os.File
-	envFailed error
-)
+const childEnv = "C16_PRIVATE_ROOT"
 
-func setupEnv() {
-	envOnce.Do(func() {
-		origErr = os.Stderr
-		base := "/verif/.run"
-		if err := os.MkdirAll(base, 0o755); err != nil {
-			envFailed = err
-			return
-		}
-		d, err := os.MkdirTemp(base, "c16-priv-")
-		if err != nil {
-			envFailed = err
-			return
-		}
+var privRoot string
+
+// reexecInPrivateDir is called first thing in main (through New).
+func reexecInPrivateDir() {
+	if d := os.Getenv(childEnv); d != "" {
 		privRoot = d
-		for _, sub := range []string{"cwd", "data", "config", "home"} {
-			if err := os.MkdirAll(filepath.Join(d, sub), 0o755); err != nil {
-				envFailed = err
-				return
+		return
+	}
+	fail := func(err error) {
+		fmt.Fprintln(os.Stderr, "c16: cannot set up the private environment:", err)
+		os.Exit(2)
+	}
+	base := "/verif/.run"
+	if err := os.MkdirAll(base, 0o755); err != nil {
+		fail(err)
+	}
+	d, err := os.MkdirTemp(base, "c16-priv-")
+	if err != nil {
+		fail(err)
+	}
+	for _, sub := range []string{"cwd", "data", "config", "home"} {
+		if err := os.MkdirAll(filepath.Join(d, sub), 0o755); err != nil {
+			fail(err)
+		}
+	}
+	// file arguments stay valid after the directory change
+	args := append([]string{}, os.Args...)
+	for i := 1; i < len(args); i++ {
+		if (args[i] == "--out" || args[i] == "-out" || args[i] == "--in" || args[i] == "-in") && i+1 < len(args) {
+			if abs, err := filepath.Abs(args[i+1]); err == nil {
+				args[i+1] = abs
 			}
 		}
-		os.Setenv("XDG_DATA_HOME", filepath.Join(d, "data"))
-		os.Setenv("XDG_CONFIG_HOME", filepath.Join(d, "config"))
-		os.Setenv("HOME", filepath.Join(d, "home"))
-		// variables the shipped corpus and the generator refer to through {$NAME}
-		os.Setenv("C16_ENV", "envval")
-		os.Unsetenv("C16_UNSET")
-		// DefaultStorage was computed at package initialisation from the old environment
-		caddy.DefaultStorage = &certmagic.FileStorage{Path: filepath.Join(d, "data", "caddy")}
-		caddy.ConfigAutosavePath = filepath.Join(d, "config", "autosave.json")
-		if err := os.Chdir(filepath.Join(d, "cwd")); err != nil {
-			envFailed = err
-			return
+	}
+	exe, err := os.Executable()
+	if err != nil {
+		fail(err)
+	}
+	env := []string{}
+	for _, kv := range os.Environ() {
+		keep := true
+		for _, p := range []string{"XDG_DATA_HOME=", "XDG_CONFIG_HOME=", "HOME=", "C16_ENV=", "C16_UNSET=", "CADDY_", "UP=", "ROOT="} {
+			if len(kv) >= len(p) && kv[:len(p)] == p {
+				keep = false
+			}
 		}
-		if null, err := os.OpenFile(os.DevNull, os.O_WRONLY, 0); err == nil {
-			os.Stderr = null
+		if keep {
+			env = append(env, kv)
 		}
-	})
-	if envFailed != nil {
-		fmt.Fprintln(origErr, "c16: cannot set up the private environment:", envFailed)
-		os.Exit(2)
+	}
+	env = append(env,
+		childEnv+"="+d,
+		"XDG_DATA_HOME="+filepath.Join(d, "data"),
+		"XDG_CONFIG_HOME="+filepath.Join(d, "config"),
+		"HOME="+filepath.Join(d, "home"),
+		// a variable the generator refers to through {$C16_ENV}; C16_UNSET stays unset
+		"C16_ENV=envval",
+	)
+	if err := os.Chdir(filepath.Join(d, "cwd")); err != nil {
+		fail(err)
+	}
+	fail(syscall.Exec(exe, args, env))
+}
+
+var origErr = os.Stderr
+
+// silenceStderr points file descriptor 2 at a file in the private directory: caddy's default
+// logger (created at package initialisation) and every validated config log there. The file
+// goes away with the private directory; after a crash it stays for the post-mortem.
+func silenceStderr() {
+	if privRoot == "" {
+		return
+	}
+	if fd, err := syscall.Dup(2); err == nil {
+		origErr = os.NewFile(uintptr(fd), "stderr")
+	}
+	f, err := os.OpenFile(filepath.Join(privRoot, "stderr.log"), os.O_CREATE|os.O_WRONLY|os.O_TRUNC|os.O_APPEND, 0o644)
+	if err != nil {
+		return
+	}
+	logFile = f
+	syscall.Dup3(int(f.Fd()), 2, 0)
+}
+
+var (
+	logFile  *os.File
+	logTicks int
+)
+
+// trimLog keeps the captured log small.
+func trimLog() {
+	logTicks++
+	if logFile != nil && logTicks%300 == 0 {
+		logFile.Truncate(0)
 	}
 }
 
+func setupEnv() {}
+
 func cleanupEnv() {
 	if privRoot != "" {
+		syscall.Dup3(int(origErr.Fd()), 2, 0)
 		os.Chdir("/")
 		os.RemoveAll(privRoot)
 	}
 }
 
-// cwdIsEmpty re-checks the working directory (a case must not have left files there that a
-// later `import *` could pick up).
 func cwdEntries() []string {
 	es, err := os.ReadDir(".")
 	if err != nil {
@@ -89,7 +139,9 @@ func cwdEntries() []string {
 	return out
 }
 
+// cleanCwd: a case must not leave files behind that a later `import *` could pick up.
 func cleanCwd() {
+	trimLog()
 	for _, n := range cwdEntries() {
 		os.RemoveAll(n)
 	}
